@@ -1486,6 +1486,6 @@ example : clsOuts stepInterpolate (stepF 5) 8
 example : clsOuts stepInterpolate (stepF 5) 8
     [.node .seq [Pat.const (.int 0), Pat.const (.int 1), Pat.const (.int 2)] { n0 := 1 },
      .node .seq [Pat.const (.int 4), Pat.const (.int 2)] { n0 := 1 }] { n0 := 0 } =
-    [.val (.int 0), .val (.int 0), .val (.int 0), .val (.int 0), .val (.int 1), .val (.int 1), .val (.int 2), .stop] := by decide
+    [.val (.int 0), .val (.int 0), .val (.int 0), .val (.int 0), .val (.int 1), .val (.int 1), .val (.int 2), .stop] := by decide +kernel
 
 end IsobarV.C10
